@@ -42,7 +42,7 @@ META = dict(
           "cl_pe_zero_checked", "re_pe_zero_checked", "cl_geovi_unchanged", "re_nonlinear_unchanged",
           "cl_sample_mean", "re_sample_mean", "smoke_chi2"],
     quick=dict(cases=420, workers=8, budget_s=75),
-    thorough=dict(cases=20000, workers=16, budget_s=780),
+    thorough=dict(cases=8000, workers=16, budget_s=780),
     design_ref="DESIGN.md §5 C18",
     level_text=("exact observation of the residual map of the real samplers on generated small models; "
                 "exploration of models x drivers x options, not exhaustive"),
